@@ -121,6 +121,8 @@ pub struct Shared {
     pub env_steps: u32,
     /// the broker model stays silent; the scenario pushes inbound bytes itself
     pub manual: bool,
+    /// scripted scenarios: the next write stalls (returns Pending once); the scenario decides how long
+    pub stall_next_write: bool,
     pub keep_tx: bool,
     /// the most recent cancellation was forced (nothing else could happen), not a chosen deviation
     pub last_cancel_forced: bool,
@@ -189,6 +191,12 @@ impl Shared {
             return Poll::Ready(Err(ErrorKind::BrokenPipe));
         }
         self.oracle.write_offered(c, buf);
+        if self.stall_next_write {
+            self.stall_next_write = false;
+            self.log(|| format!("  io c{} write stalls", c));
+            self.pending = Pend::Chosen;
+            return Poll::Pending;
+        }
         #[derive(Copy, Clone)]
         enum A {
             All,
@@ -2190,6 +2198,7 @@ pub fn run_inner(
         progress: 0,
         env_steps: 0,
         manual: false,
+        stall_next_write: false,
         keep_tx: cfg.twin.is_some() || script.is_some(),
         last_cancel_forced: false,
         held: Vec::new(),
